@@ -732,18 +732,67 @@ def rule_g(ctx: Context, R: Reporter):
     R.floor("C08.g", "pickles of the sampler object", n, 1)
 
 
+UNPICKLABLE_CTORS = ("Pool", "ThreadPool", "ProcessPoolExecutor", "ThreadPoolExecutor", "Lock", "RLock", "Semaphore", "open", "socket")
+
+
+def rule_h(ctx: Context, R: Reporter):
+    """No attribute of an object that is pickled into the checkpoint holds a
+    process pool, executor, lock or open file."""
+    roots = set()
+    for fi in ctx.prog.functions.values():
+        for c in calls_in(fi.node):
+            if (ctx.res.external_name(fi, c) or "") in ("dill.dumps", "pickle.dumps") and c.args and isinstance(c.args[0], ast.Name) and c.args[0].id == "self" and fi.cls is not None:
+                roots.add(fi.cls.qualname)
+    if not roots:
+        raise AnalysisError("C08.h: no pickled object found")
+    # classes reachable through attributes of the roots
+    classes = set(roots)
+    todo = list(roots)
+    while todo:
+        q = todo.pop()
+        ci = ctx.prog.classes[q]
+        for (k, attr), lst in ctx.res._attr_values.items():
+            if k != q:
+                continue
+            for t in ctx.res.attr_type(ci, attr):
+                if isinstance(t, ClassInfo) and t.qualname not in classes:
+                    classes.add(t.qualname)
+                    todo.append(t.qualname)
+    n = 0
+    for q in sorted(classes):
+        ci = ctx.prog.classes[q]
+        for m in ci.methods.values():
+            flow = flow_of(m.node)
+            for node in walk_no_nested(m.node):
+                if isinstance(node, ast.Assign) and any(isinstance(t, ast.Attribute) and isinstance(t.value, ast.Name) and t.value.id == "self" for t in node.targets):
+                    n += 1
+                    v = node.value
+                    cands = [v]
+                    if isinstance(v, ast.Name):
+                        at = flow.node_containing(node)
+                        cands += [d.value for d in (flow.reaching(at, v.id) if at is not None else []) if d.value is not None]
+                    for cv in cands:
+                        if isinstance(cv, ast.Call) and dotted(cv.func).split(".")[-1] in UNPICKLABLE_CTORS:
+                            R.check("C08.h", "no pool / lock / open file is stored on an object that is pickled into checkpoints", False, m, node,
+                                    msg=f"{m.short}: `{unparse(node)[:70]}` keeps a `{dotted(cv.func)}` on {ci.name}, which save_state pickles: with this option combined with "
+                                        f"save_every (or save_state) the checkpoint fails with 'pool objects cannot be passed between processes or pickled'", key=f"unpicklable-attr:{ci.name}.{norm_text(node.targets[0])}")
+    R.analysed["C08.h:classes"] = sorted(c.split(":")[1] for c in classes)
+    R.check("C08.h", f"scanned {n} attribute assignments of {len(classes)} classes reachable from the pickled object", True, None, None, key="scan", loc="tempest/")
+
+
 def const_is_none(e) -> bool:
     return isinstance(e, ast.Constant) and e.value is None
 
 
 def run(ctx: Context, R: Reporter):
-    rule_a(ctx, R)
-    rule_b(ctx, R)
-    rule_c(ctx, R)
-    rule_g(ctx, R)
-    rule_d(ctx, R)
-    rule_e(ctx, R)
-    rule_f(ctx, R)
+    R.guard(rule_a, ctx, R)
+    R.guard(rule_b, ctx, R)
+    R.guard(rule_c, ctx, R)
+    R.guard(rule_g, ctx, R)
+    R.guard(rule_h, ctx, R)
+    R.guard(rule_d, ctx, R)
+    R.guard(rule_e, ctx, R)
+    R.guard(rule_f, ctx, R)
 
 
 def variants():
@@ -764,6 +813,7 @@ def variants():
         Variant("c-rename-reversed", "bad", replace_expr(sm, "StateManager.save_state", "os.rename(temp_path, path)", "os.rename(path, temp_path)"), ["C08.c"]),
         Variant("c-write-bytes", "bad", edit(core, "SamplerCore.save_sampler_state", _to_write_bytes), ["C08.c"], quick=True),
         Variant("g-pickle-shallow-copy", "bad", replace_stmt(core, "SamplerCore.save_sampler_state", "d['sampler'] = dill.dumps(self)", "import copy\nclone = copy.copy(self)\nd['sampler'] = dill.dumps(clone)"), ["C08.g"]),
+        Variant("h-cached-pool", "bad", replace_stmt(core, "SamplerCore._get_distribute_func", "pool = Pool(self.config.pool)", "pool = Pool(self.config.pool)\nself._pool = pool"), ["C08.h"]),
         Variant("d-export-wrong-attr", "bad", replace_expr(sm, "StateManager.to_dict", "self._history.items()", "self._current.items()"), ["C08.d"]),
         Variant("d-import-skips-history", "bad", edit(sm, "StateManager.update_from_dict", _drop_history_import), ["C08.d", "C08.a"], quick=True),
         Variant("e-reset-iter-after-load", "bad", insert_after(core, "SamplerCore.run_sampling", "self._initialize_from_resume(resume_state_path)", "self.state.set_current('calls', 0)"), ["C08.e"], quick=True),
